@@ -99,11 +99,14 @@ def additionalPrios (svcs : List ServiceDecl) (u : Nat) : Nat :=
     let withDefault := if size = s.nCccd then size else size + 1
     if withDefault = 0 then 1 else withDefault
 
--- src: higher_outgoing_priority::service_base_priority (fold over the server's UUID list)
+-- src: higher_outgoing_priority::service_base_priority (fold over the server's UUID list).
+-- `optional_sum_prio::sum` is `found ? prio : number_of_additional_priorities< U >` — despite its
+-- name the fold does not add up: the base priority is the number of priorities of the *last*
+-- UUID in front of the service (of the last UUID of the list for a service that is not named)
 def serviceBasePrio (svcs : List ServiceDecl) (prio : List Nat) (su : Nat) : Nat :=
   (prio.foldl (fun (acc : Bool × Nat) u =>
       let found := acc.1 || u == su
-      (found, if found then acc.2 else acc.2 + additionalPrios svcs u)) (false, 0)).2
+      (found, if found then acc.2 else additionalPrios svcs u)) (false, 0)).2
 
 -- src: higher_outgoing_priority::expand_shared_priorities folded over all services
 def sharedPrios (svcs : List ServiceDecl) (prio : List Nat) : Nat :=
